@@ -2848,3 +2848,73 @@ func ruleSplitAtMaxima(rule string) func(*Ctx) {
 			"an edge that leaves the AEL while still marked as joined leaves its partner pointing at a dead edge: the next split un-joins the wrong pair and a ring is closed with the wrong side (a negatively wound lobe, a panic or a hang)")
 	}
 }
+
+// ruleBackwardScanReachesZero: C06 — the scan that looks backwards from the last vertex for one that is not on the
+// rectangle's boundary (to decide where the path starts) must be able to look at vertex 0: a counted loop that runs
+// down to `i > 0` never does, and a polygon whose only off-boundary vertex is the first comes out unclipped.
+func ruleBackwardScanReachesZero(rule string) func(*Ctx) {
+	return func(c *Ctx) {
+		f := c.fn("(RectClip64).executeInternal")
+		n := 0
+		for _, g := range freshRegion(c, f) {
+			for _, l := range naturalLoops(g) {
+				// a header phi decremented round the loop
+				for _, in := range l.header.Instrs {
+					phi, ok := in.(*ssa.Phi)
+					if !ok {
+						break
+					}
+					dec := false
+					for i, e := range phi.Edges {
+						if !l.blocks[phi.Block().Preds[i]] {
+							continue
+						}
+						if bo, ok := e.(*ssa.BinOp); ok && ((bo.Op == token.SUB && isConstInt(bo.Y, 1)) || (bo.Op == token.ADD && isConstInt(bo.Y, -1))) && (bo.X == ssa.Value(phi)) {
+							dec = true
+						}
+					}
+					if !dec {
+						continue
+					}
+					// does the loop read getLocation of a path element?
+					reads := false
+					for b := range l.blocks {
+						for _, bi := range b.Instrs {
+							if ci, ok := bi.(ssa.CallInstruction); ok && calleeName(c, ci) == "getLocation" {
+								reads = true
+							}
+						}
+					}
+					if !reads {
+						continue
+					}
+					// the continue-condition on the counter
+					for b := range l.blocks {
+						ifi, ok := b.Instrs[len(b.Instrs)-1].(*ssa.If)
+						if !ok {
+							continue
+						}
+						cmp, ok := ifi.Cond.(*ssa.BinOp)
+						if !ok || cmp.X != ssa.Value(phi) {
+							continue
+						}
+						k, isK := cmp.Y.(*ssa.Const)
+						if !isK || k.Value == nil {
+							continue
+						}
+						stays := l.blocks[b.Succs[0]] // the true branch stays in the loop
+						if !stays {
+							continue
+						}
+						n++
+						okZero := (cmp.Op == token.GEQ && k.Int64() <= 0) || (cmp.Op == token.GTR && k.Int64() < 0) || (cmp.Op == token.NEQ && k.Int64() < 0)
+						c.check(okZero, rule, fmt.Sprintf("%s:%s:down-to-zero#%d", rule, c.fname(g), n), cmp.Pos(), c.fname(g),
+							"the backward scan over the path's vertices continues while the index is >= 0", fmt.Sprintf("the backward scan continues only while the index %s %d: vertex 0 is never looked at", cmp.Op, k.Int64()),
+							"where the path starts relative to the rectangle is decided by the nearest earlier vertex that is off the boundary; that may be vertex 0")
+					}
+				}
+			}
+		}
+		c.floor(rule, n, 1)
+	}
+}
